@@ -354,3 +354,73 @@ def c20_setup(ctx, spec):
     rc, out, wall = run_watchdog([exe, "--run", c20_dir(ctx)], ctx.harness, ctx.env, 1500)
     log("[setup] generated lambda crate built rc=%s %.1fs" % (rc, wall))
     return 0 if rc in (0, 1) else 2
+
+
+# =============================================================================================
+# C03: the engine's runs as listed in props.py, plus the same random histories under Miri (items that own heap memory -
+# the aggregate of WordItem is a Vec - make a double drop, a use after free or a read of a moved-out item undefined
+# behaviour that the interpreter reports with a stack trace; natively they are at best a crash of the engine, which is
+# inconclusive)
+
+
+def c03_miri(ctx, tier, seed, cases, shard):
+    run = dict(engine="treapmon", kind="miri", args=["--mode", "seq", "--cases", str(cases), "--threads", "1"])
+    label = "treapmon/miri/seq %d histories (shard %d)" % (cases, shard)
+    os.makedirs(ctx.work, exist_ok=True)
+    outfile = os.path.join(ctx.work, "res-%d-treapmon-miri-%d.json" % (os.getpid(), shard))
+    if os.path.exists(outfile):
+        os.remove(outfile)
+    cmd = ["cargo", "+" + NIGHTLY, "miri", "run", "--offline", "-q", "-p", "treapmon", "--", "--mode", "seq", "--cases", str(cases), "--threads", "1",
+           "--tier", tier, "--seed", str(seed * 131 + shard), "--out", outfile]
+    env = dict(ctx.env)
+    env["MIRIFLAGS"] = "-Zmiri-disable-isolation -Zmiri-ignore-leaks"
+    rc, out, wall = run_watchdog(cmd, ctx.harness, env, 1800 if tier == "quick" else 7200)
+    cmdline = "MIRIFLAGS='%s' %s" % (env["MIRIFLAGS"], " ".join(cmd))
+    res = None
+    if os.path.exists(outfile):
+        try:
+            res = json.load(open(outfile))
+        except Exception:
+            res = None
+        os.remove(outfile)
+    ub = re.findall(r"error: Undefined Behavior: (.*)", out)
+    if ub:
+        r0 = _empty_result("treapmon(miri)")
+        in_repo = ("rlib_treap" in out) or ("/repo/rlib" in out)
+        frames = re.findall(r"^\s+\d+: (rlib_[\w:<>]+)", out, re.M)
+        where = frames[0] if frames else "?"
+        if in_repo:
+            r0["violations_total"] = 1
+            r0["violations"] = [dict(signature="miri:undefined_behaviour:%s" % where,
+                                     detail=dict(what="Miri reports undefined behaviour inside the treap while a random history runs on items that own heap memory",
+                                                 report=ub[0], first_library_frame=where, command=cmdline,
+                                                 excerpt=out[out.find("error: Undefined Behavior"):][:2500]),
+                                     replay=[])]
+            return _res(label, run, "violated", result=r0, wall=wall, cmd=cmdline, tail=out[-2000:])
+        return _res(label, run, "inconclusive", why="Miri reports UB outside the library: " + ub[0], result=r0, wall=wall, cmd=cmdline)
+    if rc is None:
+        return _res(label, run, "inconclusive", why="Miri watchdog fired", result=res, wall=wall, cmd=cmdline)
+    if res is None or rc not in (0, 1, 2):
+        return _res(label, run, "inconclusive", why="Miri run did not complete (rc=%s): %s" % (rc, out[-1500:]), result=res, wall=wall, cmd=cmdline)
+    res.setdefault("counters", {})["miri_histories_completed"] = res.get("counters", {}).get("evaluations", 0)
+    if res.get("violations_total", 0) > 0:
+        return _res(label, run, "violated", result=res, wall=wall, cmd=cmdline)
+    if res.get("inconclusive"):
+        return _res(label, run, "inconclusive", why="; ".join(res["inconclusive"]), result=res, wall=wall, cmd=cmdline)
+    return _res(label, run, "held", result=res, wall=wall, cmd=cmdline)
+
+
+def c03_custom(ctx, spec, tier, seed, run_engine):
+    results = []
+    for run in spec["runs"]:
+        if tier not in run.get("tiers", ("quick", "thorough")):
+            continue
+        results.append(run_engine(ctx, run, tier, seed))
+    if tier == "quick":
+        results.append(c03_miri(ctx, tier, seed, 14, 0))
+    else:
+        from concurrent.futures import ThreadPoolExecutor
+        with ThreadPoolExecutor(max_workers=6) as ex:
+            futs = [ex.submit(c03_miri, ctx, tier, seed, 40, k) for k in range(6)]
+            results.extend(f.result() for f in futs)
+    return results
